@@ -8,13 +8,20 @@
 set -u
 D=$(cd "$1" && pwd); shift
 HERE=$(cd "$(dirname "$0")/.." && pwd)
+# TRY_REPO: the tree the patch is applied to for the checks (default /repo itself). Any other value must be a
+# git worktree of /repo at the commit to test; it is then also used as the scratch tree for the confirmation,
+# the checks run with VERIF_REPO pointing at it, and /repo is never touched (so this can run next to other work).
+R=${TRY_REPO:-/repo}
 W=/tmp/tryseed
+[ "$R" = "/repo" ] || W="$R-confirm"
+VD=/tmp/tryseed-verif
+[ "$R" = "/repo" ] || VD="$R-verif"
 PROP=$(python3 -c "import json,sys;print(json.load(open('$D/meta.json'))['property'])" 2>/dev/null || echo "")
-cleanup() { git -C /repo checkout -q -- . 2>/dev/null; }
+cleanup() { git -C "$R" checkout -q -- . 2>/dev/null; }
 trap cleanup EXIT INT TERM
-if [ -n "$(git -C /repo status --porcelain)" ]; then echo "try_seed: /repo is not clean"; exit 2; fi
-[ -d "$W" ] || git -C /repo worktree add -q --detach "$W" HEAD || exit 2
-git -C "$W" checkout -q --detach "$(git -C /repo rev-parse HEAD)" && git -C "$W" checkout -q -- . && rm -f "$W/tests/demo.rs"
+if [ -n "$(git -C "$R" status --porcelain)" ]; then echo "try_seed: $R is not clean"; exit 2; fi
+[ -d "$W" ] || git -C /repo worktree add -q --detach "$W" "$(git -C "$R" rev-parse HEAD)" || exit 2
+git -C "$W" checkout -q --detach "$(git -C "$R" rev-parse HEAD)" && git -C "$W" checkout -q -- . && rm -f "$W/tests/demo.rs"
 confirm=ok
 if ! git -C "$W" apply "$D/patch.diff"; then echo "try_seed: patch does not apply"; exit 2; fi
 ( cd "$W" && cargo build --offline --features verif-hooks >/dev/null 2>&1 ) || confirm="does-not-compile-with-hooks"
@@ -32,10 +39,10 @@ fi
 echo "confirm: $confirm"
 IDS="$*"
 [ -n "$IDS" ] || IDS="C01 C02 C03 C04 C05 C06 C07 C08 C09 C10 C11 C12 C13 C14 C15 C16 C17 C18 C19 C20"
-git -C /repo apply "$D/patch.diff" || exit 2
+git -C "$R" apply "$D/patch.diff" || exit 2
 caught=""; missed=""; inconc=""
 for id in $IDS; do
-  out=$(VERIF_DIR=/tmp/tryseed-verif "$HERE/check" "$id" quick 2>&1); rc=$?
+  out=$(VERIF_REPO="$R" VERIF_DIR="$VD" "$HERE/check" "$id" quick 2>&1); rc=$?
   sigs=$(echo "$out" | grep "signature:" | sed 's/ *signature: //' | tr '\n' ',' )
   case $rc in
     1) caught="$caught $id"; echo "$id caught [$sigs]" ;;
@@ -43,5 +50,5 @@ for id in $IDS; do
     *) inconc="$inconc $id"; echo "$id inconclusive: $(echo "$out" | grep -E "INCONCLUSIVE" | head -2)" ;;
   esac
 done
-git -C /repo checkout -q -- .
+git -C "$R" checkout -q -- .
 echo "SUMMARY property=$PROP confirm=[$confirm] caught=[$caught ] inconclusive=[$inconc ]"
